@@ -360,7 +360,10 @@ class _RawConfigParser(configparser.RawConfigParser):
       return value
     # [Variables] takes precedence over same named options of the section when resolving ${NAME}
     lookup = collections.ChainMap(self._defaults, sectiondict)
-    return self._interpolation.before_get(self, section, option, value, lookup)
+    try:
+      return self._interpolation.before_get(self, section, option, value, lookup)
+    except configparser.InterpolationError as e:
+      raise ConfigParserException(e.message)
 
 class ConfigParser(object):
   """Performs initial stage (tokenizing) of generating a potential model
@@ -402,6 +405,8 @@ class ConfigParser(object):
       cp.read_file(fp)
     except (configparser.DuplicateOptionError, configparser.DuplicateSectionError) as e:
       raise ConfigParserDuplicateEntryException(e.message)
+    except configparser.Error as e:
+      raise ConfigParserException(e.message)
 
     # Process overrides
     for override in overrides:
